@@ -228,6 +228,7 @@ func checkC05(e *RunEnv) *CheckResult {
 			steps = append(steps, Run(append([]string{"add"}, topLevel(set)...)...), Run("commit", "-m", "m"))
 			cases = append(cases, Case{Base: base, BaseName: "S0", BaseSeed: seedS0(), Steps: steps})
 		}
+		cases = append(cases, Case{Base: base, BaseName: "S0", BaseSeed: seedS0(), Steps: bigSnapshotSteps()})
 		sweep = x.RunCases(cases)
 		// blob ids and sub-tree ids containing 0x00, 0x20, 0x0a at each of the 20 positions
 		var sp []Case
